@@ -105,6 +105,9 @@ pub struct Place {
     /// (`</block><block>`, `text<block>`)
     #[serde(default)]
     pub glue: bool,
+    /// a one-line block comment placed inside the interpolated part of a string literal (languages that have one)
+    #[serde(default)]
+    pub interp: bool,
 }
 
 #[derive(Clone, Debug, Serialize, Deserialize, Hash, PartialEq, Eq)]
@@ -388,6 +391,8 @@ struct CommentSeg {
     star: bool,
     doc: bool,
     container: u8,
+    /// the (one-line) block comment sits inside the interpolated part of a string literal
+    interp: bool,
     parts: Vec<Part>,
 }
 
@@ -531,7 +536,8 @@ pub fn build_raw(lang: &Lang, events: &[Ev], crlf: bool) -> Built {
                     // newline-terminated statements: never two statements on one line
                     let one_stmt_per_line = matches!(lang.id, "go" | "swift" | "kotlin");
                     let trail = place.trail && ((form == Form::Block && has_inline && !(lead && one_stmt_per_line)) || form == Form::MdHtml);
-                    segs.push(Seg::Comment(CommentSeg { form, indent: (place.indent % 9) as usize, lead, trail, star: place.star && lang.star, doc: place.doc && (lang.star || lang.markdown), container: place.container % 5, parts: part_for(form) }));
+                    let interp = place.interp && form == Form::Block && crate::langs::interp_wrapper(lang.id).is_some();
+                    segs.push(Seg::Comment(CommentSeg { form, indent: (place.indent % 9) as usize, lead: lead && !interp, trail: trail && !interp, star: place.star && lang.star, doc: place.doc && (lang.star || lang.markdown) && !interp, container: place.container % 5, interp, parts: part_for(form) }));
                 }
                 prev_was_tag = true;
             }
@@ -545,7 +551,7 @@ pub fn build_raw(lang: &Lang, events: &[Ev], crlf: bool) -> Built {
                 let k = *text as usize % (NOISE.len() + NOISE_UNCLOSED.len());
                 let raw = if k < NOISE.len() { NOISE[k] } else { NOISE_UNCLOSED[k - NOISE.len()] };
                 let t = sanitise_text(lang, form, raw);
-                segs.push(Seg::Comment(CommentSeg { form, indent: (*indent % 9) as usize, lead: false, trail: false, star: false, doc: false, container: 0, parts: vec![Part::Text(t)] }));
+                segs.push(Seg::Comment(CommentSeg { form, indent: (*indent % 9) as usize, lead: false, trail: false, star: false, doc: false, container: 0, interp: false, parts: vec![Part::Text(t)] }));
                 prev_was_tag = false;
             }
             Ev::Decoy { tpl, tag } => {
@@ -621,6 +627,13 @@ pub fn build_raw(lang: &Lang, events: &[Ev], crlf: bool) -> Built {
                         _ => lang.inline_code[counter % lang.inline_code.len()],
                     };
                     out.push_str(&fill(code, counter));
+                    out.push(' ');
+                }
+                // (a later tag joined into this comment may have made it multi-line: then it stays ordinary)
+                let interp = if c.interp && one_line { crate::langs::interp_wrapper(lang.id) } else { None };
+                if let Some((before, _)) = interp {
+                    counter += 1;
+                    out.push_str(&fill(before, counter));
                     out.push(' ');
                 }
                 let cstart = out.len();
@@ -735,6 +748,10 @@ pub fn build_raw(lang: &Lang, events: &[Ev], crlf: bool) -> Built {
                     _ => false,
                 };
                 comments.push(CommentRec { start: cstart, end: cend, lenient, lenient_indent: matches!(c.form, Form::MdRef(_)) });
+                if let Some((_, after)) = interp {
+                    out.push(' ');
+                    out.push_str(after);
+                }
                 if c.trail {
                     counter += 1;
                     out.push(' ');
@@ -825,9 +842,9 @@ pub fn place_strategy() -> BoxedStrategy<Place> {
         proptest::bool::weighted(0.25),
         any::<bool>(),
         prop_oneof![3 => Just(0u8), 1 => 0u8..9],
-        (proptest::bool::weighted(0.2), prop_oneof![4 => Just(0u8), 1 => 1u8..5], proptest::bool::weighted(0.2)),
+        (proptest::bool::weighted(0.2), prop_oneof![4 => Just(0u8), 1 => 1u8..5], proptest::bool::weighted(0.2), proptest::bool::weighted(0.12)),
     )
-        .prop_map(|(form, join, lead, trail, pre, post, nl_before, nl_after, star, indent, (doc, container, glue))| Place { form, join, lead, trail, pre, post, nl_before, nl_after, star, indent, doc, container, glue })
+        .prop_map(|(form, join, lead, trail, pre, post, nl_before, nl_after, star, indent, (doc, container, glue, interp))| Place { form, join, lead, trail, pre, post, nl_before, nl_after, star, indent, doc, container, glue, interp })
         .boxed()
 }
 
